@@ -6,7 +6,7 @@
 From Coq Require Import String.
 From Coq Require Import List NArith.
 From Wbxml Require Import Model.Codec Model.TablesDefs Gen.TablesData Model.Parser Model.TreeBuild Model.TreeConv
-     Model.Conv Model.ConvConcrete Proofs.ConvProofs Proofs.ParserGrowth Proofs.ParserCount Proofs.TreeBuildProofs3
+     Model.Conv Model.ConvConcrete Proofs.ConvProofs Proofs.ParserGrowth Proofs.ParserCount Proofs.ParserCharsMax Proofs.TreeBuildProofs3
      Proofs.TreeBuildSize Proofs.ConvCostXml Proofs.ConvConcreteProofs.
 From Wbxml Require Model.EncXml.
 Import ListNotations.
@@ -42,7 +42,8 @@ Theorem C01c_tree_builder_total : forall tbl forced meta levels bs,
 Proof. exact tree_from_wbxml_total. Qed.
 Print Assumptions C01c_tree_builder_total.
 
-(* (c) SIZE, FULL for the model (every table, option tuple and byte string).  With n = |doc|, K = Kmax (longest table
+(* (c) SIZE, degree 4 (kept; superseded by the degree-3 bound (c') below, which is smaller at every evaluated size and grows one degree slower), FULL for the model
+   (every table, option tuple and byte string).  With n = |doc|, K = Kmax (longest table
    string), E(n) = n (2 n + 2 K + 122) (the bound of C01p_growth on the total size of the events), C = 2 * 255 *
    (indent mod 256 + 1) + 2 K + Kns + 12 (what an element can cost beyond its strings) and
        Phi(x) = 24 * E(x) + C * 2 x      (a document of x bytes converted WITHOUT opening embedded documents),
@@ -57,13 +58,75 @@ Print Assumptions C01c_tree_builder_total.
    declaration, at most 2 * 255 * indent blanks and 12 bytes of punctuation).
    Before the repair no polynomial bounded the conversion (a NUL-free document in the string table of its parent,
    referenced eight times, at every level: 619 bytes gave 128 MB of XML); the examples at the end are those
-   documents, now converted with one level of embedding.  The true worst case with one level is cubic (n/8
-   references to a document of n/2 bytes that itself holds n/16 references to a string of n/4 bytes); the bound
-   proved here is of degree 4 because Phi is applied to the TOTAL size of the character data. *)
+   documents, now converted with one level of embedding.  The bound of this theorem is of degree 4 because Phi is applied
+   to the TOTAL size of the character data; (c') uses that one embedded document comes from ONE event. *)
 Theorem C01c_output_size : forall tbl o doc,
   (N.to_nat (r_len (wbxml2xml_model tbl o doc)) <= size_bound tbl (wo_indent o) (length doc))%nat.
 Proof. exact model_size. Qed.
 Print Assumptions C01c_output_size.
+
+(* the same bound as a function over N (binary numbers), so that it can be evaluated: bound_N tbl indent n =
+   Khdr + PhiN n + PhiN (n (2 n + 2 K + 122)), PhiN x = 24 x (2 x + 2 K + 122) + C 2 x,
+   C = 2 * 255 * (indent mod 256 + 1) + 2 K + Kns + 12.  The tie (vlib/convmodel.py) evaluates the same expression and checks
+   len(out) <= bound_N on every accepted case; its arithmetic is pinned to the Examples below. *)
+Theorem C01c_size_bound_N : forall tbl indent n, N.of_nat (size_bound tbl indent n) = bound_N tbl indent (N.of_nat n).
+Proof. exact size_bound_N. Qed.
+Print Assumptions C01c_size_bound_N.
+
+Theorem C01c_output_size_N : forall tbl o doc,
+  r_len (wbxml2xml_model tbl o doc) <= bound_N tbl (wo_indent o) (N.of_nat (length doc)).
+Proof. exact model_size_N. Qed.
+Print Assumptions C01c_output_size_N.
+
+Example C01c_ex_bound_267 : bound_N main_table 0 267 = 1946732541070.
+Proof. vm_compute. reflexivity. Qed.
+Example C01c_ex_bound_65536 : bound_N main_table 0 65536 = 3553674400644843700390.
+Proof. vm_compute. reflexivity. Qed.
+Example C01c_ex_bound_267_indent255 : bound_N main_table 255 267 = 1999164799570.
+Proof. vm_compute. reflexivity. Qed.
+Example C01c_ex_bound_65536_indent255 : bound_N main_table 255 65536 = 3553676638653977985190.
+Proof. vm_compute. reflexivity. Qed.
+
+(* (c') SIZE, degree 3, FULL.  A single character-data event is at most Bc = 5 n + K + 121 bytes (C01c_chars_event_max): an
+   embedded document is parsed from one event, so its cost Phi(x) is at most x * (24 (2 Bc + 2 K + 122) + 2 C), linear in x,
+   and the events' total is at most E(n):
+       |XML| <= Khdr + Phi(n) + E(n) * (24 (2 (5 n + K + 121) + 2 K + 122) + 2 C).
+   This is the degree of the worst case: the family below (C01c_ex_cubic) has k references to a NUL-free embedded document that
+   itself holds k references to a string of k bytes: about 3.5 k + 70 bytes of input, more than k^3 bytes of XML (the C
+   agrees byte for byte: 90 -> 507, 118 -> 1159, 174 -> 5151, 286 -> 34639, 512 -> 265647 bytes). *)
+Theorem C01c_chars_event_max : forall tbl forced meta fuel bs evs,
+  parse_with tbl forced meta fuel bs = POk evs -> chars_le (5 * length bs + Kmax tbl + 121) evs.
+Proof. exact parse_chars_max. Qed.
+Print Assumptions C01c_chars_event_max.
+
+Theorem C01c_output_size_cubic : forall tbl o doc,
+  r_len (wbxml2xml_model tbl o doc) <= bound3_N tbl (wo_indent o) (N.of_nat (length doc)).
+Proof. exact model_size3_N. Qed.
+Print Assumptions C01c_output_size_cubic.
+
+Theorem C01c_size_bound3_N : forall tbl indent n, N.of_nat (size_bound3 tbl indent n) = bound3_N tbl indent (N.of_nat n).
+Proof. exact size_bound3_N. Qed.
+Print Assumptions C01c_size_bound3_N.
+
+Example C01c_ex_bound3_267 : bound3_N main_table 0 267 = 15886771438.
+Proof. vm_compute. reflexivity. Qed.
+Example C01c_ex_bound3_65536 : bound3_N main_table 0 65536 = 135462382940455078.
+Proof. vm_compute. reflexivity. Qed.
+Example C01c_ex_bound3_267_indent255 : bound3_N main_table 255 267 = 68319029938.
+Proof. vm_compute. reflexivity. Qed.
+Example C01c_ex_bound3_65536_indent255 : bound3_N main_table 255 65536 = 137700392074739878.
+Proof. vm_compute. reflexivity. Qed.
+
+(* the cubic family, k = 8, 16, 32 *)
+Definition cubic8 : bytes := [2; 159; 83; 106; 37; 120; 2; 159; 83; 106; 9; 121; 121; 121; 121; 121; 121; 121; 121; 121; 84; 131; 1; 131; 1; 131; 1; 131; 1; 131; 1; 131; 1; 131; 1; 131; 1; 1; 84; 121; 112; 101; 84; 90; 68; 33; 195; 35; 97; 112; 112; 108; 105; 99; 97; 116; 105; 111; 110; 47; 118; 110; 100; 46; 115; 121; 110; 99; 109; 108; 45; 100; 101; 118; 105; 110; 102; 43; 119; 98; 120; 109; 108; 1; 1; 79; 131; 1; 1; 79; 131; 1; 1; 79; 131; 1; 1; 79; 131; 1; 1; 79; 131; 1; 1; 79; 131; 1; 1; 79; 131; 1; 1; 79; 131; 1; 1; 1].
+Definition cubic16 : bytes := [2; 159; 83; 106; 61; 120; 2; 159; 83; 106; 17; 121; 121; 121; 121; 121; 121; 121; 121; 121; 121; 121; 121; 121; 121; 121; 121; 121; 84; 131; 1; 131; 1; 131; 1; 131; 1; 131; 1; 131; 1; 131; 1; 131; 1; 131; 1; 131; 1; 131; 1; 131; 1; 131; 1; 131; 1; 131; 1; 131; 1; 1; 84; 121; 112; 101; 84; 90; 68; 57; 195; 35; 97; 112; 112; 108; 105; 99; 97; 116; 105; 111; 110; 47; 118; 110; 100; 46; 115; 121; 110; 99; 109; 108; 45; 100; 101; 118; 105; 110; 102; 43; 119; 98; 120; 109; 108; 1; 1; 79; 131; 1; 1; 79; 131; 1; 1; 79; 131; 1; 1; 79; 131; 1; 1; 79; 131; 1; 1; 79; 131; 1; 1; 79; 131; 1; 1; 79; 131; 1; 1; 79; 131; 1; 1; 79; 131; 1; 1; 79; 131; 1; 1; 79; 131; 1; 1; 79; 131; 1; 1; 79; 131; 1; 1; 79; 131; 1; 1; 79; 131; 1; 1; 1].
+Definition cubic32 : bytes := [2; 159; 83; 106; 109; 120; 2; 159; 83; 106; 33; 121; 121; 121; 121; 121; 121; 121; 121; 121; 121; 121; 121; 121; 121; 121; 121; 121; 121; 121; 121; 121; 121; 121; 121; 121; 121; 121; 121; 121; 121; 121; 121; 121; 84; 131; 1; 131; 1; 131; 1; 131; 1; 131; 1; 131; 1; 131; 1; 131; 1; 131; 1; 131; 1; 131; 1; 131; 1; 131; 1; 131; 1; 131; 1; 131; 1; 131; 1; 131; 1; 131; 1; 131; 1; 131; 1; 131; 1; 131; 1; 131; 1; 131; 1; 131; 1; 131; 1; 131; 1; 131; 1; 131; 1; 131; 1; 131; 1; 1; 84; 121; 112; 101; 84; 90; 68; 105; 195; 35; 97; 112; 112; 108; 105; 99; 97; 116; 105; 111; 110; 47; 118; 110; 100; 46; 115; 121; 110; 99; 109; 108; 45; 100; 101; 118; 105; 110; 102; 43; 119; 98; 120; 109; 108; 1; 1; 79; 131; 1; 1; 79; 131; 1; 1; 79; 131; 1; 1; 79; 131; 1; 1; 79; 131; 1; 1; 79; 131; 1; 1; 79; 131; 1; 1; 79; 131; 1; 1; 79; 131; 1; 1; 79; 131; 1; 1; 79; 131; 1; 1; 79; 131; 1; 1; 79; 131; 1; 1; 79; 131; 1; 1; 79; 131; 1; 1; 79; 131; 1; 1; 79; 131; 1; 1; 79; 131; 1; 1; 79; 131; 1; 1; 79; 131; 1; 1; 79; 131; 1; 1; 79; 131; 1; 1; 79; 131; 1; 1; 79; 131; 1; 1; 79; 131; 1; 1; 79; 131; 1; 1; 79; 131; 1; 1; 79; 131; 1; 1; 79; 131; 1; 1; 79; 131; 1; 1; 79; 131; 1; 1; 79; 131; 1; 1; 1].
+Example C01c_ex_cubic :
+  (length cubic8, r_len (wbxml2xml_model main_table (mk_w2x 0 0 0 0 false) cubic8)) = (118%nat, 1159)
+  /\ (length cubic16, r_len (wbxml2xml_model main_table (mk_w2x 0 0 0 0 false) cubic16)) = (174%nat, 5151)
+  /\ (length cubic32, r_len (wbxml2xml_model main_table (mk_w2x 0 0 0 0 false) cubic32)) = (286%nat, 34639)
+  /\ 8 * 8 * 8 <= 1159 /\ 16 * 16 * 16 <= 5151 /\ 32 * 32 * 32 <= 34639.
+Proof. vm_compute. repeat split; try reflexivity; discriminate. Qed.
 
 (* without embedded documents (a tree built with 0 levels; in particular every document without an element named
    Data): the quadratic bound Phi(n) on what the tree can cost the generator *)
